@@ -70,6 +70,7 @@ inductive Ev
   | handleBegin (res : Sets)              -- L: the loop runs the queued `_handle_select(res)`
   | dispatch (isW : Bool) (fd : Fd)       -- L: the registered callback of `fd` is called
   | consume (n : Nat)                     -- L: `_consume_waker` read `n` bytes
+  | raised                                -- L: the callback just called raised: the rest of this round is skipped
   | post (a : Sets)                       -- L: `_start_select()` at the end of `_handle_select`
   | setClosing | joined | closed          -- L: stages of `close()`
   | ready (isW : Bool) (fd : Fd) | unready (isW : Bool) (fd : Fd)    -- environment
@@ -147,6 +148,11 @@ def step (s : St) : Ev → Option St
         if x == waker && n == min s.bytes 1024 then some { s with lpc := .handling rest todoW, bytes := s.bytes - n }
         else none
       | [] => none
+    | _ => none
+  | .raised =>
+    if s.pendingWake then none else
+    match s.lpc with
+    | .handling _ _ => some { s with lpc := .handling [] [] }     -- `finally: self._start_select()` comes next
     | _ => none
   | .post a =>
     if s.pendingWake then none else
